@@ -34,6 +34,19 @@ def gen_src_envelope():
     return p.returncode, p.stdout
 
 
+def gen_src_work():
+    """C06 / C07 / C12 / C17: regenerate lean/RSVerif/Gen/SrcWork.lean from encoder_work.rs / decoder_work.rs / lib.rs"""
+    out = os.path.join(VERIF, "lean", "RSVerif", "Gen", "SrcWork.lean")
+    p = subprocess.run([sys.executable, os.path.join(VERIF, "translate", "rs2lean_work.py"), "/repo", out],
+                       stdout=subprocess.PIPE, stderr=subprocess.STDOUT, text=True)
+    return p.returncode, p.stdout
+
+
+TECH_TRW = ("Lean 4 machine-checked proof; the bookkeeping methods of EncoderWork / DecoderWork and enum Error are TRANSLATED from the "
+            "current Rust source on every run (translate/rs2lean_work.py -> Gen/SrcWork.lean, state-passing, checked usize, abstract "
+            "shard memory) and theorems are re-checked on the translation; the rest on a hand-written model + differential "
+            "correspondence with the crate")
+
 TECH_TR = ("Lean 4 machine-checked proof; the usize decision logic (supports / use_high_rate / validate / work_count) is TRANSLATED from "
            "the current Rust source on every run (translate/rs2lean.py -> Gen/SrcEnvelope.lean) and the theorems are re-checked on the "
            "translation; the rest on a hand-written model + differential correspondence with the crate")
@@ -109,6 +122,7 @@ PROPS = {
         "profiles; model's truthful sets vs harness's.",
         "cases = op sequences with injected invalid calls and usize extremes + stateless sweeps + one-shot tuples; distinct by text",
         profiles=["release", "dev"],
+        pre_lean=gen_src_work, technique=TECH_TRW, extra_targets=["srcwork"],
         design_ref="DESIGN.md §6 C06",
     ),
     "C07": P(
@@ -117,6 +131,7 @@ PROPS = {
         "run_filter_failed: any op sequence ends in the same state as the sequence with the failing calls removed. Direct oracle: history with "
         "injected failing calls vs the same history without them on the implementation.",
         "cases = histories with injected failing calls of every kind; each compared with its failure-free version",
+        pre_lean=gen_src_work, technique=TECH_TRW,
         design_ref="DESIGN.md §6 C07",
     ),
     "C08": P(
@@ -165,6 +180,7 @@ PROPS = {
         "Direct oracle: accessor sweep incl. usize extremes and iterator exhaustion in both profiles, 1-12 consecutive rounds.",
         "cases = multi-round histories with implicit reset only; accessor contract evaluated on every result",
         profiles=["release", "dev"],
+        pre_lean=gen_src_work, technique=TECH_TRW,
         design_ref="DESIGN.md §6 C12",
     ),
     "C13": P(
@@ -210,6 +226,7 @@ PROPS = {
         "the high-water mark; histories bounded by the first configuration allocate exactly once. Direct oracle: counting global allocator around "
         "every library call: shard-proportional allocation only where the configuration grows. Trusted: Vec::resize within capacity does not allocate.",
         "cases = histories (rounds, growing/non-growing/failed resets, renew across flavours) with per-call allocation measurement",
+        pre_lean=gen_src_work, technique=TECH_TRW,
         design_ref="DESIGN.md §6 C17",
     ),
 }
